@@ -492,8 +492,14 @@ def run_op(world, idx, op):
             if a.get('restart'):
                 world.count('probe:restart_from_older_checkpoint')
             seams.rng_set(world.job_rng[root])
-            whole = call('cacgmm.fit', Ctx(world, replica=True),
-                         dict(a['base'], iterations=a['cum'], method='fit'), None)
+            # the segments may have run under different np.seterr
+            # environments (env.seterr operations in between); values do not
+            # depend on the error state, only whether a warning becomes an
+            # exception does -- the reference fit runs under the default one
+            with np.errstate(all='warn'):
+                whole = call('cacgmm.fit', Ctx(world, replica=True),
+                             dict(a['base'], iterations=a['cum'], method='fit'),
+                             None)
             world.count('o4_comparisons')
             if whole.kind != 'ok':
                 _viol(world, 'O4', idx, name, a,
@@ -794,6 +800,22 @@ def shrink_candidates(program):
         q = copy.deepcopy(program)
         q['trainer_kwargs'] = {}
         yield q
+    def edit(i, fn):
+        """Apply ``fn(target_dict)`` to op i and -- for a split job -- to every
+        segment sharing the same base (a job's segments must keep identical
+        options)."""
+        q = copy.deepcopy(program)
+        ai = q['ops'][i]['a']
+        if 'base' in ai:
+            key = json.dumps(program['ops'][i]['a']['base'], sort_keys=True)
+            for j, o in enumerate(program['ops']):
+                if o.get('op') == 'cacgmm.seg' and json.dumps(
+                        o['a']['base'], sort_keys=True) == key:
+                    fn(q['ops'][j]['a']['base'])
+        else:
+            fn(ai)
+        return q
+
     for i, op in enumerate(program['ops']):
         a = op.get('a')
         if not a:
@@ -804,21 +826,17 @@ def shrink_candidates(program):
             q = copy.deepcopy(program)
             (q['ops'][i]['a'].get('base') or q['ops'][i]['a'])['iterations'] = 1
             yield q
-        for key in ('saliency', 'sam', 'aligner'):
+        for key in ('saliency', 'sam', 'aligner', 'fixed_covariance'):
             if key in target:
-                q = copy.deepcopy(program)
-                del (q['ops'][i]['a'].get('base') or q['ops'][i]['a'])[key]
-                yield q
+                yield edit(i, lambda t, key=key: t.pop(key, None))
         if target.get('opts'):
             for k in list(target['opts']):
-                q = copy.deepcopy(program)
-                del (q['ops'][i]['a'].get('base') or q['ops'][i]['a'])['opts'][k]
-                yield q
+                yield edit(i, lambda t, k=k: t['opts'].pop(k, None))
         for k, v in target.items():
             if isinstance(v, dict) and 'layout' in v and v['layout'] != 'C':
-                q = copy.deepcopy(program)
-                (q['ops'][i]['a'].get('base') or q['ops'][i]['a'])[k]['layout'] = 'C'
-                yield q
+                yield edit(i, lambda t, k=k: t[k].__setitem__('layout', 'C'))
+            if isinstance(v, dict) and v.get('dtype') in ('complex64', 'float32'):
+                yield edit(i, lambda t, k=k: t[k].pop('dtype'))
 
 
 # --------------------------------------------------------------------------
